@@ -46,6 +46,8 @@ def trees(values: list[dict]) -> list[Any]:
     # well-typed values that are == to the field's default but distinguishable from it (sign of zero,
     # 0 for an optional whose default is None is not ==, but kept as a neighbour)
     out.append(("plain", R("VMany", {}, "a", items=(R("VTyped", {"f": -0.0}), R("VTyped", {"oi": 0, "t": (), "u": "0"}), R("VRich", {"f": -0.0}, "b")))))
+    # values inside an untyped (Any) property: lists and mappings keep their container types in every format
+    out.append(("plain", R("VMany", {}, "b", items=(R("VTyped", {"a": [1, [2, 3], "x"]}), R("VTyped", {"a": {"k": [3], "n": {"m": [], "s": "t"}}}, "a")))))
     out.append(("twins-reversed", R("VMany", items=(R("VLeaf", {"v": 1}), R("VReq", child=R("VLeaf", {"v": 1})), R("VLeaf", {"v": 1})))))
     return out
 
